@@ -84,6 +84,18 @@ def run(facts, out, bodies=None):
                     # local buffer: must not be dropped on a normal path, must reach _0
                     bl = pl['l']
                     ok, why = _local_kept(b, bl)
+                    if not ok:
+                        # `let rest = buf.split_off(bom_len);` -- what stays behind in `buf` (and is dropped) is exactly the
+                        # recognised BOM, the bytes after it live on in `rest`
+                        for bb2, t2 in b.calls():
+                            c2 = callee_of(t2)
+                            if c2 and c2['path'].startswith('std::vec::Vec::<T, A>::') and c2['name'] == 'split_off' and len(t2['args']) == 2:
+                                p2 = resolve_ref(b, op_local(t2['args'][0])) if op_local(t2['args'][0]) is not None else None
+                                if p2 is not None and not p2['p'] and p2['l'] == bl and _from_bom_len(b, op_local(t2['args'][1])) \
+                                        and not t2['dest']['p']:
+                                    ok2, why2 = _local_kept(b, t2['dest']['l'])
+                                    if ok2:
+                                        ok, why = True, ''
                     out.add('IC', b.path, 'fill:' + c['name'], loc_of(t['sp']), ok, why, {'buffer': '_%d' % bl})
                     continue
                 if all(e['k'] == 'deref' for e in pl['p']) and 1 <= pl['l'] <= b.argc and not fixture:
@@ -101,8 +113,15 @@ def run(facts, out, bodies=None):
                 if pl is not None and (not pl['p'] or (all(e['k'] == 'deref' for e in pl['p']) and pl['l'] <= b.argc)) \
                         and _is_reader_filled(b, pl):
                     ok = _drain_is_bom(b, t)
-                    out.add('IC', b.path, 'trim:' + c['name'], loc_of(t['sp']), ok,
-                            '' if ok else 'bytes read from the reader are removed from the buffer and are not the BOM length')
+                    why_t = 'bytes read from the reader are removed from the buffer and are not the BOM length'
+                    if c['name'] == 'truncate':
+                        # keeps the first n bytes and throws the rest away: never a BOM removal
+                        ok, why_t = False, 'the buffer read from the reader is cut after n bytes: everything behind them is lost'
+                    elif c['name'] == 'split_off' and ok:
+                        # the bytes behind the BOM move into the result: it must be kept
+                        ok = not t['dest']['p'] and _local_kept(b, t['dest']['l'])[0]
+                        why_t = 'the bytes split off behind the BOM are not kept'
+                    out.add('IC', b.path, 'trim:' + c['name'], loc_of(t['sp']), ok, '' if ok else why_t)
     # IC4 BOM detection must not look at a single fill_buf() chunk: its length depends on how the
     # reader delivers the bytes (a first chunk shorter than the BOM would not be recognised)
     for b in bodies:
